@@ -95,6 +95,12 @@ class CFG:
         if isinstance(test, ast.UnaryOp) and isinstance(test.op, ast.Not):
             t, f = self._cond(test.operand, incoming)
             return f, t
+        if isinstance(test, ast.IfExp):
+            # `A if C else B` as a test: C decides which of A / B is evaluated
+            ct, cf = self._cond(test.test, incoming)
+            at, af = self._cond(test.body, ct)
+            bt, bf = self._cond(test.orelse, cf)
+            return at + bt, af + bf
         if isinstance(test, ast.Compare) and len(test.ops) > 1 and all(isinstance(o, (ast.Lt, ast.LtE, ast.Gt, ast.GtE, ast.Eq, ast.NotEq)) for o in test.ops):
             # `a <= x <= b` is `a <= x and x <= b` (operands are taken to be free of side effects): one atom per link
             parts = []
